@@ -1,5 +1,21 @@
-/- C02 — coherence (initial: RawLRU lookups agree and return the stored value) -/
-import Caches.Lemmas.RawLru
+/-
+  C02 — coherence: a cache may forget an entry but never returns a wrong one.
+
+  The *truth* `κ → Option ν` is a ghost map updated only from what each operation declares (`Decl`): the entry it
+  stores (`put`, a write through a returned `&mut V`) and the keys whose old value it invalidates (the written key,
+  a removed key, every key on `purge`). `coherent_*`: for every accepted configuration and **every history** of
+  operations, every lookup answer of the final state is the true value (so a key whose truth is `none` — never put,
+  or removed/purged and not put again — is never reported resident). `*_lookup_agree`: all lookup flavours agree.
+  `*_only_put_revives`: a key that is not resident can become resident only through an operation that stores it.
+  Ghost entries of 2Q/ARC are not resident and are not looked at by any lookup.
+-/
+import Caches.Lemmas.CohRaw
+import Caches.Lemmas.CohSlru
+import Caches.Lemmas.CohTwoQ
+import Caches.Lemmas.CohArc
+import Caches.Lemmas.CohWt
+set_option linter.unusedSectionVars false
+set_option linter.unusedVariables false
 namespace C02
 open M M.RawLru
 variable {κ ν : Type} [DecidableEq κ]
@@ -57,4 +73,200 @@ theorem rawlru_put_other (c c' : RawLru κ ν) (k x : κ) (v : ν) (r : PutResul
           by_cases he : e'.1 = x <;> simp [he]
       · simp at hp; obtain ⟨rfl, _, _⟩ := hp
         left; simp only; rw [find_cons_ne _ _ _ (by exact fun hc => hx hc.symm)]
+
+/-! ## every history, every cache -/
+
+/-- the truth after a `put k v` is `v`; after invalidating `k` it is `none`; other keys are untouched -/
+theorem truth_update (t : κ → Option ν) (k x : κ) (v : ν) :
+    (keyDecl k (some (k, v))).upd t k = some v ∧ (keyDecl k (none : Option (κ × ν))).upd t k = none ∧
+    (x ≠ k → (keyDecl k (some (k, v))).upd t x = t x ∧ (keyDecl k (none : Option (κ × ν))).upd t x = t x) := by
+  refine ⟨by simp [Decl.upd, keyDecl], by simp [Decl.upd, keyDecl], fun hx => ⟨by simp [Decl.upd, keyDecl, hx], by simp [Decl.upd, keyDecl, hx]⟩⟩
+
+/-- a key that is not held can only become held by an operation that stores it -/
+theorem only_put_revives (d : Decl κ ν) (ents ents' : AL κ ν) (ho : Owes d ents ents') (k : κ)
+    (hk : k ∉ keys ents) (hw : ∀ v, d.wr ≠ some (k, v)) : k ∉ keys ents' := by
+  intro hc
+  unfold keys at hc
+  obtain ⟨e, he, rfl⟩ := List.mem_map.1 hc
+  rcases ho.from_ e he with h1 | h1
+  · exact hk (mem_keys_of_mem e _ h1)
+  · exact hw e.2 h1
+
+/-- RawLRU, every history from any constructed cache: each `peek` answer is the true value -/
+theorem coherent_rawlru (cap : Nat) (cb : Bool) (c0 : RawLru κ ν) (hc : RawLru.new cap cb = some c0)
+    (ops : List (RawOp κ ν)) :
+    ∃ c t, runTruth RawLru.step RawLru.decl c0 (fun _ => none) ops = .ok (c, t) ∧ runOps RawLru.step c0 ops = .ok c ∧
+      ∀ k v, c.peek k = some v → t k = some v := by
+  have hi := RawLru.inv_new cap cb c0 hc
+  have h0 : c0.items = [] := by unfold RawLru.new at hc; split at hc <;> simp at hc; rw [← hc]
+  obtain ⟨c, t, hr, hr2, _, hcoh⟩ := coherent_history RawLru.step RawLru.decl RawLru.Inv (fun c => c.items)
+    (fun s o hs => by obtain ⟨s', h1, h2⟩ := RawLru.step_inv s o hs; exact ⟨s', h1, h2, RawLru.step_owes s s' o hs h1⟩)
+    ops c0 (fun _ => none) hi (by intro k v hm; rw [h0] at hm; simp at hm)
+  exact ⟨c, t, hr, hr2, fun k v hp => hcoh k v (find_mem k v _ hp)⟩
+
+theorem slru_peek_mem (s : Slru κ ν) (k : κ) (v : ν) (h : s.peek k = some v) : (k, v) ∈ s.ents := by
+  unfold Slru.peek RawLru.peek at h; unfold Slru.ents
+  cases hq : find k s.prot.items with
+  | some x => simp only [hq] at h; injection h with h; subst h; exact List.mem_append_right _ (find_mem k _ _ hq)
+  | none => simp only [hq] at h; exact List.mem_append_left _ (find_mem k v _ h)
+
+/-- SegmentedCache, every history -/
+theorem coherent_slru (p q : Nat) (s0 : Slru κ ν) (hc : Slru.new p q = some s0) (ops : List (SlruOp κ ν)) :
+    ∃ s t, runTruth Slru.step Slru.decl s0 (fun _ => none) ops = .ok (s, t) ∧ runOps Slru.step s0 ops = .ok s ∧
+      ∀ k v, s.peek k = some v → t k = some v := by
+  have hi := (Slru.inv_new p q s0 hc).1
+  have h0 : s0.ents = [] := by
+    unfold Slru.new at hc; split at hc <;> try simp at hc
+    rw [← hc.2]; rfl
+  obtain ⟨s, t, hr, hr2, _, hcoh⟩ := coherent_history Slru.step Slru.decl Slru.Inv Slru.ents
+    (fun s o hs => by obtain ⟨s', h1, h2⟩ := Slru.step_inv s o hs; exact ⟨s', h1, h2, Slru.step_owes s s' o hs h1⟩)
+    ops s0 (fun _ => none) hi (by intro k v hm; rw [h0] at hm; simp at hm)
+  exact ⟨s, t, hr, hr2, fun k v hp => hcoh k v (slru_peek_mem s k v hp)⟩
+
+theorem twoq_peek_mem (q : TwoQ κ ν) (k : κ) (v : ν) (h : q.peek k = some v) : (k, v) ∈ q.ents := by
+  unfold TwoQ.peek RawLru.peek at h; unfold TwoQ.ents
+  cases hq : find k q.frequent.items with
+  | some x => simp only [hq] at h; injection h with h; subst h; exact List.mem_append_right _ (find_mem k _ _ hq)
+  | none => simp only [hq] at h; exact List.mem_append_left _ (find_mem k v _ h)
+
+/-- TwoQueueCache, every history: ghost entries are never reported by a lookup -/
+theorem coherent_twoq (size : Nat) (rr gr : RatioClass) (rs es : Nat) (q0 : TwoQ κ ν)
+    (hc : TwoQ.new size rr gr rs es = .ok q0) (ops : List (CacheOp κ ν)) :
+    ∃ q t, runTruth TwoQ.step TwoQ.decl q0 (fun _ => none) ops = .ok (q, t) ∧ runOps TwoQ.step q0 ops = .ok q ∧
+      ∀ k v, q.peek k = some v → t k = some v := by
+  have hi := TwoQ.inv_new size rr gr rs es q0 hc
+  have h0 : q0.ents = [] := by
+    have hb := hi.bound
+    unfold TwoQ.ents
+    unfold TwoQ.new at hc
+    repeat' split at hc
+    all_goals first | (simp at hc; done) | (injection hc with hc; rw [← hc]; rfl)
+  obtain ⟨q, t, hr, hr2, _, hcoh⟩ := coherent_history TwoQ.step TwoQ.decl TwoQ.Inv TwoQ.ents
+    (fun s o hs => by obtain ⟨s', h1, h2⟩ := TwoQ.step_inv s o hs; exact ⟨s', h1, h2, TwoQ.step_owes s s' o hs h1⟩)
+    ops q0 (fun _ => none) hi (by intro k v hm; rw [h0] at hm; simp at hm)
+  exact ⟨q, t, hr, hr2, fun k v hp => hcoh k v (twoq_peek_mem q k v hp)⟩
+
+theorem arc_peek_mem (a : Arc κ ν) (k : κ) (v : ν) (h : a.peek k = some v) : (k, v) ∈ a.ents := by
+  unfold Arc.peek RawLru.peek at h; unfold Arc.ents
+  cases hq : find k a.recent.items with
+  | some x => simp only [hq] at h; injection h with h; subst h; exact List.mem_append_left _ (find_mem k _ _ hq)
+  | none => simp only [hq] at h; exact List.mem_append_right _ (find_mem k v _ h)
+
+/-- AdaptiveCache, every history -/
+theorem coherent_arc (size : Nat) (a0 : Arc κ ν) (hc : Arc.new size = some a0) (ops : List (CacheOp κ ν)) :
+    ∃ a t, runTruth Arc.step Arc.decl a0 (fun _ => none) ops = .ok (a, t) ∧ runOps Arc.step a0 ops = .ok a ∧
+      ∀ k v, a.peek k = some v → t k = some v := by
+  have hi := (Arc.inv_new size a0 hc).1
+  have h0 : a0.ents = [] := by
+    unfold Arc.new at hc; split at hc <;> simp at hc; rw [← hc]; rfl
+  obtain ⟨a, t, hr, hr2, _, hcoh⟩ := coherent_history Arc.step Arc.decl Arc.Inv Arc.ents
+    (fun s o hs => by obtain ⟨s', h1, h2⟩ := Arc.step_inv s o hs; exact ⟨s', h1, h2, Arc.step_owes s s' o hs h1⟩)
+    ops a0 (fun _ => none) hi (by intro k v hm; rw [h0] at hm; simp at hm)
+  exact ⟨a, t, hr, hr2, fun k v hp => hcoh k v (arc_peek_mem a k v hp)⟩
+
+theorem wt_peek_mem (c : WTinyLfu κ ν) (k : κ) (v : ν) (h : c.peek k = some v) : (k, v) ∈ c.ents := by
+  unfold WTinyLfu.peek RawLru.peek at h; unfold WTinyLfu.ents
+  cases hq : find k c.window.items with
+  | some x => simp only [hq] at h; injection h with h; subst h; exact List.mem_append_left _ (find_mem k _ _ hq)
+  | none => simp only [hq] at h; exact List.mem_append_right _ (slru_peek_mem c.main k v h)
+
+/-- WTinyLFUCache, every history from an empty well-formed cache, whatever the key hasher and the estimator say -/
+theorem coherent_wtinylfu (kh : κ → UInt64) (c0 : WTinyLfu κ ν) (hi : c0.Inv) (h0 : c0.ents = [])
+    (ops : List (CacheOp κ ν)) :
+    ∃ c t, runTruth (WTinyLfu.step kh) WTinyLfu.decl c0 (fun _ => none) ops = .ok (c, t) ∧
+      runOps (WTinyLfu.step kh) c0 ops = .ok c ∧ ∀ k v, c.peek k = some v → t k = some v := by
+  obtain ⟨c, t, hr, hr2, _, hcoh⟩ := coherent_history (WTinyLfu.step kh) WTinyLfu.decl WTinyLfu.Inv WTinyLfu.ents
+    (fun s o hs => by obtain ⟨s', h1, h2⟩ := WTinyLfu.step_inv kh s o hs; exact ⟨s', h1, h2, WTinyLfu.step_owes kh s s' o hs h1⟩)
+    ops c0 (fun _ => none) hi (by intro k v hm; rw [h0] at hm; simp at hm)
+  exact ⟨c, t, hr, hr2, fun k v hp => hcoh k v (wt_peek_mem c k v hp)⟩
+
+/-! ## the lookup flavours agree (composites) -/
+
+theorem slru_lookup_agree (s : Slru κ ν) (k : κ) (w : Option ν) (h : s.Inv) :
+    (s.peekMut k w).2 = s.peek k ∧ s.contains k = (s.peek k).isSome ∧
+    (∀ r s', s.getMut k w = .ok (r, s') → r = s.peek k) := by
+  refine ⟨?_, ?_, ?_⟩
+  · unfold Slru.peekMut Slru.peek RawLru.peekMut RawLru.peek
+    cases find k s.prot.items <;> cases find k s.prob.items <;> cases w <;> rfl
+  · unfold Slru.contains Slru.peek RawLru.contains RawLru.peek
+    cases find k s.prot.items <;> cases find k s.prob.items <;> rfl
+  · intro r s' hg
+    obtain ⟨r0, s0, hg0, heq⟩ := C07.get_eq_spec s k w h
+    rw [hg] at hg0; injection hg0 with hg0; injection hg0 with hr0 _; subst hr0
+    unfold SlruSpec.get at heq
+    unfold Slru.peek RawLru.peek
+    cases hq : find k s.prot.items with
+    | some old => simp only [hq] at heq; injection heq with _ h2; injection h2 with _ h3
+    | none =>
+      simp only [hq] at heq
+      cases hp : find k s.prob.items with
+      | some old => simp only [hp] at heq; injection heq with _ h2; injection h2 with _ h3
+      | none => simp only [hp] at heq; injection heq with _ h2; injection h2 with _ h3
+
+theorem twoq_lookup_agree (q : TwoQ κ ν) (k : κ) (w : Option ν) (h : q.Inv) :
+    (q.peekMut k w).2 = q.peek k ∧ q.contains k = (q.peek k).isSome ∧
+    (∀ r q', q.getMut k w = .ok (r, q') → r = q.peek k) := by
+  refine ⟨?_, ?_, ?_⟩
+  · unfold TwoQ.peekMut TwoQ.peek RawLru.peekMut RawLru.peek
+    cases find k q.frequent.items <;> cases find k q.recent.items <;> cases w <;> rfl
+  · unfold TwoQ.contains TwoQ.peek RawLru.contains RawLru.peek
+    cases find k q.frequent.items <;> cases find k q.recent.items <;> rfl
+  · intro r q' hg
+    obtain ⟨r0, q0, hg0, heq⟩ := C08.get_eq_spec q k w h
+    rw [hg] at hg0; injection hg0 with hg0; injection hg0 with hr0 _; subst hr0
+    unfold TwoQSpec.get at heq
+    unfold TwoQ.peek RawLru.peek
+    cases hf : find k q.frequent.items with
+    | some old => simp only [hf] at heq; simp at heq; exact heq.2.2.2
+    | none =>
+      simp only [hf] at heq
+      cases hr : find k q.recent.items with
+      | some old => simp only [hr] at heq; simp at heq; exact heq.2.2.2
+      | none => simp only [hr] at heq; simp at heq; exact heq.2.2.2
+
+theorem arc_lookup_agree (a : Arc κ ν) (k : κ) (w : Option ν) (h : a.Inv) :
+    (a.peekMut k w).2 = a.peek k ∧ a.contains k = (a.peek k).isSome ∧
+    (∀ r a' d, a.getMut k w = .ok (r, a', d) → r = a.peek k) := by
+  refine ⟨?_, ?_, ?_⟩
+  · unfold Arc.peekMut Arc.peek RawLru.peekMut RawLru.peek
+    cases find k a.recent.items <;> cases find k a.frequent.items <;> cases w <;> rfl
+  · unfold Arc.contains Arc.peek RawLru.contains RawLru.peek
+    cases find k a.recent.items <;> cases find k a.frequent.items <;> rfl
+  · intro r a' d hg
+    obtain ⟨r0, a0, d0, hg0, heq⟩ := C09.get_eq_spec a k w h
+    rw [hg] at hg0; injection hg0 with hg0; injection hg0 with hr0 _; subst hr0
+    unfold ArcSpec.get at heq
+    simp only [C09.view] at heq
+    unfold Arc.peek RawLru.peek
+    cases h1 : find k a.recent.items with
+    | some old => simp only [h1] at heq; injection heq with _ h2
+    | none =>
+      simp only [h1] at heq
+      cases h2 : find k a.frequent.items with
+      | some old => simp only [h2] at heq; injection heq with _ h3
+      | none => simp only [h2] at heq; injection heq with _ h3
+
+/-- `remove` hands the stored value back exactly once (composites): it returns the resident value if there is one,
+    and the key is not resident afterwards -/
+theorem slru_remove_once (s : Slru κ ν) (k : κ) (h : s.Inv) :
+    (s.peek k).isSome → (s.remove k).2.1 = s.peek k := by
+  unfold Slru.remove Slru.peek RawLru.remove RawLru.peek
+  cases hp : find k s.prob.items with
+  | some v =>
+    have : find k s.prot.items = none := (find_none_iff k _).2 (h.disj k (find_some_mem k v _ hp))
+    simp [this]
+  | none => cases hq : find k s.prot.items <;> simp
+
+theorem removed_not_resident (d : Decl κ ν) (ents ents' : AL κ ν) (ho : Owes d ents ents') (k : κ)
+    (hk : d.kills k = true) (hw : ∀ v, d.wr ≠ some (k, v)) : k ∉ keys ents' := by
+  intro hc
+  unfold keys at hc
+  obtain ⟨e, he, rfl⟩ := List.mem_map.1 hc
+  exact hw e.2 (ho.fresh e he hk)
+
+/-- non-vacuity: a concrete history on a 2-entry RawLRU; the final truth of key 1 is its rewritten value -/
+example : (match runTruth RawLru.step RawLru.decl (⟨2, [], false⟩ : RawLru Nat Nat) (fun _ => none)
+             [.put 1 10, .put 2 20, .getMut 1 (some 11), .put 3 30] with
+           | .ok (c, t) => (c.items, t 1, t 2, t 3) | .error _ => ([], none, none, none))
+          = ([(3, 30), (1, 11)], some 11, some 20, some 30) := by decide
 end C02
